@@ -7,10 +7,10 @@ From SPV Require Export Base.Str Model.OptStr Model.Help.
 Definition spec_exposed (f : hfield) : bool :=
   hf_init f && match hf_cmd f with Some false => false | _ => true end.
 
-(* the effective default: a default coming from a default instance / set_defaults / a config file wins over the
+(* the effective default: a default (falsy or not) coming from a default instance / set_defaults / a config file wins over the
    definition's (how those sources are layered among themselves is property C06) *)
 Definition spec_effective (D : dmap) (f : hfield) : option string :=
-  match dlookup (dest (hf_fw f)) D with Some v => Some v | None => hf_default f end.
+  match dlookup (dest (hf_fw f)) D with Some v => Some (dv_text v) | None => hf_default f end.
 
 (* one group per destination, titled with the class and the destination *)
 Definition spec_title (w : hwrap) : string := hw_qual w ++ " ['" ++ join_dot (hw_path w) ++ "']".
